@@ -807,4 +807,151 @@ theorem emit_prefix (s : Svc) (hp : s.persist = true) (Ta Tn : String) (e : ES) 
       apply propext; constructor <;> intro h <;> omega
     simp only [this]
 
+theorem updIf_cells (pA pN : Bool) (Ta Tn : String) (hne : Ta ≠ Tn) (i0 : String) (l : Nat) (t : Int) (d : Store)
+    (i : String) :
+    (updIf pN Tn { id := i0, level := l, time := t } (updIf pA Ta { id := i0, level := l, time := t } d)) Ta i =
+      (if pA = true ∧ i0 = i then (if l = 0 then none else some { id := i0, level := l, time := t }) else d Ta i) ∧
+    (updIf pN Tn { id := i0, level := l, time := t } (updIf pA Ta { id := i0, level := l, time := t } d)) Tn i =
+      (if pN = true ∧ i0 = i then (if l = 0 then none else some { id := i0, level := l, time := t }) else d Tn i) := by
+  have hne' : Tn ≠ Ta := Ne.symm hne
+  cases pA <;> cases pN <;> by_cases hl : l = 0 <;> by_cases hi : i0 = i <;>
+    simp [updIf, put_apply, del_apply, hne, hne', hl, hi]
+
+theorem updIf_wk (p : Bool) (T : String) (e : ES) (d : Store) (h : ∀ T i e', d T i = some e' → e'.id = i) :
+    ∀ T' i e', (updIf p T e d) T' i = some e' → e'.id = i := by
+  intro T' i e' he
+  cases p
+  · exact h T' i e' he
+  · by_cases hl : e.level = 0
+    · simp only [updIf, hl, if_true, del_apply] at he
+      split at he
+      · cases he
+      · exact h T' i e' he
+    · simp only [updIf, hl, if_true, if_false, put_apply] at he
+      split at he
+      · cases he; rename_i hc; exact hc.2
+      · exact h T' i e' he
+
+theorem told_cells (qA qN : Bool) (Ta Tn : String) (hne : Ta ≠ Tn) (i0 : String) (l : Nat) (t : Int) (tl : List Ev)
+    (i : String) :
+    lastTold (tl ++ (if qA = true then [{ topic := Ta, id := i0, level := l, time := t }] else []) ++
+        (if qN = true then [{ topic := Tn, id := i0, level := l, time := t }] else [])) Ta i =
+      (if qA = true ∧ i0 = i then l else lastTold tl Ta i) ∧
+    lastTold (tl ++ (if qA = true then [{ topic := Ta, id := i0, level := l, time := t }] else []) ++
+        (if qN = true then [{ topic := Tn, id := i0, level := l, time := t }] else [])) Tn i =
+      (if qN = true ∧ i0 = i then l else lastTold tl Tn i) := by
+  have hne' : Tn ≠ Ta := Ne.symm hne
+  cases qA <;> cases qN <;> by_cases hi : i0 = i <;>
+    simp [lastTold_append, hne, hne', hi]
+
+theorem restoreEvent_norm (cfg : Cfg) (Ta Tn : String) (ha : cfg.anon = some Ta) (hn : cfg.named = some Tn)
+    (s : Svc) (i : String) (v : Nat) (h1 : optLevel (s.mem Ta i) = v) (h2 : optLevel (s.mem Tn i) = v) :
+    restoreEvent cfg s i = (v, []) := by
+  simp only [restoreEvent, ha, hn, Option.bind_some, h1, h2, ne_eq, not_true_eq_false, if_false]
+  split <;> rfl
+
+/-- **The process dies after `j` sub-steps of a point**: what is on disk and what the handlers were told, in terms
+of how far the point got (`reached`). `b` is a world in which the two topics agree on the id (level `v`). -/
+theorem crash_in_point (cfg : Cfg) (Ta Tn : String) (ha : cfg.anon = some Ta) (hn : cfg.named = some Tn)
+    (b : World) (hp : b.svc.persist = true) (i0 : String) (l : Nat) (t : Int) (v : Nat)
+    (h1 : optLevel (b.svc.mem Ta i0) = v) (h2 : optLevel (b.svc.mem Tn i0) = v) (j : Nat) :
+    let r := reached (emits cfg ((b.groups i0).getD v) l) j
+    let e : ES := { id := i0, level := l, time := t }
+    let c := nrunMicros b ((nplan cfg b (.point i0 l t)).take j)
+    c.svc.persist = true ∧
+    c.svc.disk = updIf r.diskN Tn e (updIf r.diskA Ta e b.svc.disk) ∧
+    c.svc.told = b.svc.told ++ (if r.toldA = true then [{ topic := Ta, id := i0, level := l, time := t }] else []) ++
+      (if r.toldN = true then [{ topic := Tn, id := i0, level := l, time := t }] else []) := by
+  intro r e c
+  have hcur : (match b.groups i0 with | some c => c | none => (restoreEvent cfg b.svc i0).1) = (b.groups i0).getD v := by
+    cases b.groups i0 <;> simp [restoreEvent_norm cfg Ta Tn ha hn b.svc i0 v h1 h2]
+  have hfix : (match b.groups i0 with | some _ => [] | none => (restoreEvent cfg b.svc i0).2) = ([] : List Micro) := by
+    cases b.groups i0 <;> simp [restoreEvent_norm cfg Ta Tn ha hn b.svc i0 v h1 h2]
+  have hplan : nplan cfg b (.point i0 l t) = NMicro.setGroup i0 l ::
+      (if emits cfg ((b.groups i0).getD v) l = true then emitMicros cfg e else []).map .svc := by
+    rw [plan_shape, hcur, hfix]; rfl
+  have hsvc : c.svc = runMicros b.svc ((if emits cfg ((b.groups i0).getD v) l = true then emitMicros cfg e else []).take (j - 1)) := by
+    show (nrunMicros b ((nplan cfg b (.point i0 l t)).take j)).svc = _
+    rw [hplan]
+    cases j with
+    | zero => simp [nrunMicros, runMicros]
+    | succ j' =>
+      simp only [List.take_succ_cons, Nat.add_sub_cancel, ← List.map_take]
+      have : nrunMicros b (NMicro.setGroup i0 l :: List.map NMicro.svc
+          (List.take j' (if emits cfg ((b.groups i0).getD v) l = true then emitMicros cfg e else []))) =
+          nrunMicros (nexec b (.setGroup i0 l)) (List.map NMicro.svc
+          (List.take j' (if emits cfg ((b.groups i0).getD v) l = true then emitMicros cfg e else []))) := rfl
+      rw [this, nrunMicros_svc]
+      rfl
+  rw [hsvc]
+  by_cases hem : emits cfg ((b.groups i0).getD v) l = true
+  · have hE : emitMicros cfg e = collectMicros Ta e ++ collectMicros Tn e := by simp [emitMicros, ha, hn]
+    simp only [hem, if_true, hE]
+    obtain ⟨p, d, tt⟩ := emit_prefix b.svc hp Ta Tn e (j - 1)
+    refine ⟨p, ?_, ?_⟩
+    · rw [d]
+      have e1 : decide (8 ≤ j - 1) = r.diskN := by
+        show _ = (emits cfg ((b.groups i0).getD v) l && decide (9 ≤ j))
+        rw [hem]; simp only [Bool.true_and]
+        by_cases h : 9 ≤ j
+        · have : 8 ≤ j - 1 := by omega
+          simp [h, this]
+        · have : ¬ 8 ≤ j - 1 := by omega
+          simp [h, this]
+      have e2 : decide (4 ≤ j - 1) = r.diskA := by
+        show _ = (emits cfg ((b.groups i0).getD v) l && decide (5 ≤ j))
+        rw [hem]; simp only [Bool.true_and]
+        by_cases h : 5 ≤ j
+        · have : 4 ≤ j - 1 := by omega
+          simp [h, this]
+        · have : ¬ 4 ≤ j - 1 := by omega
+          simp [h, this]
+      rw [e1, e2]
+    · rw [tt]
+      have e1 : (3 ≤ j - 1) = (r.toldA = true) := by
+        show _ = ((emits cfg ((b.groups i0).getD v) l && decide (4 ≤ j)) = true)
+        rw [hem]; simp only [Bool.true_and, decide_eq_true_eq]
+        apply propext; constructor <;> intro h <;> omega
+      have e2 : (7 ≤ j - 1) = (r.toldN = true) := by
+        show _ = ((emits cfg ((b.groups i0).getD v) l && decide (8 ≤ j)) = true)
+        rw [hem]; simp only [Bool.true_and, decide_eq_true_eq]
+        apply propext; constructor <;> intro h <;> omega
+      simp only [e1, e2]
+      rfl
+  · have hem' : emits cfg ((b.groups i0).getD v) l = false := by simpa using hem
+    have hr : r = { toldA := false, diskA := false, toldN := false, diskN := false } := by
+      show reached _ j = _
+      rw [hem']; simp [reached]
+    rw [hr]
+    simp [hem', runMicros, updIf, hp]
+
+/-- a process death inside a graceful task restart, or with no operation in flight, changes neither disk nor log -/
+theorem crash_elsewhere (cfg : Cfg) (Ta : String) (ha : cfg.anon = some Ta) (b : World) (j : Nat) :
+    let c := nrunMicros b ((nplan cfg b .taskRestart).take j)
+    c.svc.persist = b.svc.persist ∧ c.svc.disk = b.svc.disk ∧ c.svc.told = b.svc.told := by
+  rcases j with _ | _ | _ | _ | j <;> simp [nplan, ha, nrunMicros, nexec, exec]
+
+/-- process death + `Service.Open` + task start: every cell is RESTARTED from the disk as it stood -/
+theorem restart_cells (cfg : Cfg) (Ta Tn : String) (ha : cfg.anon = some Ta) (c : World)
+    (hp : c.svc.persist = true) (hwk : ∀ T i e, c.svc.disk T i = some e → e.id = i) :
+    Coh Ta Tn (c.restart cfg) ∧
+    ∀ i, cellOf Ta Tn (c.restart cfg) i =
+      { ma := c.svc.disk Ta i, da := c.svc.disk Ta i, mn := c.svc.disk Tn i, dn := c.svc.disk Tn i,
+        ta := lastTold c.svc.told Ta i, tn := lastTold c.svc.told Tn i, g := none } := by
+  have hmem : (c.restart cfg).svc.mem = c.svc.disk := by
+    simp only [World.restart, ha, exec, Svc.restart]
+    funext T i
+    simp [Store.loadTopic]
+  have hdisk : (c.restart cfg).svc.disk = c.svc.disk := by simp [World.restart, ha, exec, Svc.restart]
+  have htold : (c.restart cfg).svc.told = c.svc.told := by simp [World.restart, ha, exec, Svc.restart]
+  have hclosed : (c.restart cfg).svc.closed = fun _ => false := by simp [World.restart, ha, exec, Svc.restart]
+  have hpers : (c.restart cfg).svc.persist = true := by simp [World.restart, ha, exec, Svc.restart, hp]
+  have hgr : (c.restart cfg).groups = fun _ => none := by simp [World.restart]
+  refine ⟨⟨hpers, ?_, ?_, ?_, ?_⟩, fun i => ?_⟩
+  · rw [hmem]; exact hwk
+  · rw [hdisk]; exact hwk
+  · rw [hclosed]; intro hc; cases hc
+  · rw [hclosed]
+  · simp only [cellOf, svcCell, hmem, hdisk, htold, hgr]
+
 end Kap.C08
